@@ -313,7 +313,35 @@ func discoverTokenAPI(p *load.Prog) {
 		return found
 	}
 	// the flag: a bool field of the receiver assigned the constant true in a
-	// method without parameters or results
+	// method without parameters or results, and the constant false in a
+	// parameterless method that returns bool (the one that delivers the token
+	// again) — a switch like optionalSemicolons is set but never consumed so
+	clearedByBoolMethod := func(v *types.Var) bool {
+		for _, m := range ms {
+			sig := m.fn.Type().(*types.Signature)
+			if sig.Params().Len() != 0 || sig.Results().Len() != 1 {
+				continue
+			}
+			if b, ok := sig.Results().At(0).Type().Underlying().(*types.Basic); !ok || b.Kind() != types.Bool {
+				continue
+			}
+			found := false
+			ast.Inspect(m.fd.Body, func(n ast.Node) bool {
+				if as, ok := n.(*ast.AssignStmt); ok && len(as.Lhs) == 1 && len(as.Rhs) == 1 {
+					if sel, ok := ast.Unparen(as.Lhs[0]).(*ast.SelectorExpr); ok && info.ObjectOf(sel.Sel) == types.Object(v) {
+						if tv := info.Types[as.Rhs[0]]; tv.Value != nil && tv.Value.ExactString() == "false" {
+							found = true
+						}
+					}
+				}
+				return !found
+			})
+			if found {
+				return true
+			}
+		}
+		return false
+	}
 	var flag *types.Var
 	for _, m := range ms {
 		sig := m.fn.Type().(*types.Signature)
@@ -333,7 +361,7 @@ func discoverTokenAPI(p *load.Prog) {
 				return true
 			}
 			if v, ok := info.ObjectOf(sel.Sel).(*types.Var); ok && v.IsField() && flag == nil {
-				if b, isB := v.Type().Underlying().(*types.Basic); isB && b.Kind() == types.Bool {
+				if b, isB := v.Type().Underlying().(*types.Basic); isB && b.Kind() == types.Bool && clearedByBoolMethod(v) {
 					flag = v
 					set("keepNextToken", v.Name())
 					set("UnNext", m.fn.Name())
@@ -352,13 +380,14 @@ func discoverTokenAPI(p *load.Prog) {
 		case callsBufio(m.fd, "ReadByte") && nr == 2:
 			set("readByte", m.fn.Name())
 		case np == 1 && nr == 0 && isErrorType(sig.Params().At(0).Type()):
-			set("addError", m.fn.Name())
-			// the slice of recorded errors it appends to
+			// the one that appends to the slice of recorded errors itself (a
+			// helper that calls it is not it)
 			ast.Inspect(m.fd.Body, func(n ast.Node) bool {
 				if as, ok := n.(*ast.AssignStmt); ok && len(as.Lhs) == 1 && len(as.Rhs) == 1 {
 					if sel, ok := ast.Unparen(as.Lhs[0]).(*ast.SelectorExpr); ok {
 						if call, ok := ast.Unparen(as.Rhs[0]).(*ast.CallExpr); ok && wire.Canon(call.Fun) == "append" {
 							if v, ok := info.ObjectOf(sel.Sel).(*types.Var); ok && v.IsField() {
+								set("addError", m.fn.Name())
 								set("errs", v.Name())
 							}
 						}
